@@ -578,6 +578,102 @@ def edges(ctx: Ctx):
                              construct='deps-reprocessed')
 
 
+def _deps_selection(ctx: Ctx, cf: FuncInfo, deps_arg):
+    """A reason string when cf forwards only a *selection* of the discovered dependencies (by equality,
+    membership or a predicate) towards its own recursion / worklist, None otherwise.  Identity tests are fine."""
+    if not isinstance(deps_arg, ast.Name):
+        return None
+    acc: set[str] = set()
+    src_names = {deps_arg.id}
+
+    def mentions(e: ast.AST) -> bool:
+        return any(isinstance(x, ast.Name) and x.id in (acc | src_names) for x in ast.walk(e))
+
+    def id_based(t: ast.AST) -> bool:
+        # identity tests never drop an equal-but-distinct instance: id(x) in seen, x is y, x is not None
+        if isinstance(t, ast.UnaryOp) and isinstance(t.op, ast.Not):
+            return id_based(t.operand)
+        if isinstance(t, ast.BoolOp):
+            return all(id_based(v) for v in t.values)
+        if isinstance(t, ast.Compare):
+            if all(isinstance(o, (ast.Is, ast.IsNot)) for o in t.ops):
+                return True
+            return isinstance(t.left, ast.Call) and isinstance(t.left.func, ast.Name) and t.left.func.id == 'id'
+        return False
+
+    def selects(t: ast.AST, names: set) -> bool:
+        # a membership / equality / predicate test on an element (or on the collection being forwarded)
+        if id_based(t):
+            return False
+        for x in ast.walk(t):
+            if isinstance(x, ast.Compare) and any(isinstance(o, (ast.In, ast.NotIn, ast.Eq, ast.NotEq)) for o in x.ops) \
+                    and any(isinstance(y, ast.Name) and y.id in names for y in ast.walk(x)):
+                return True
+            if isinstance(x, ast.Call) and not (isinstance(x.func, ast.Name) and x.func.id in ('len', 'bool', 'id')) \
+                    and any(isinstance(y, ast.Name) and y.id in names for a in x.args for y in ast.walk(a)):
+                return True
+        return False
+
+    def lossy(e: ast.AST) -> bool:
+        """The expression forwards only a selection of the dependencies: a comprehension with a selecting
+        condition, filter(), a slice, or a set difference / intersection over them."""
+        for x in ast.walk(e):
+            if isinstance(x, (ast.ListComp, ast.SetComp, ast.GeneratorExp)):
+                for gen in x.generators:
+                    if mentions(gen.iter):
+                        tv = {y.id for y in ast.walk(gen.target) if isinstance(y, ast.Name)}
+                        if any(selects(t, tv) for t in gen.ifs):
+                            return True
+            elif isinstance(x, ast.Call) and isinstance(x.func, ast.Name) and x.func.id == 'filter' and any(mentions(a) for a in x.args):
+                return True
+            elif isinstance(x, ast.Subscript) and isinstance(x.slice, ast.Slice) and mentions(x.value):
+                return True
+            elif isinstance(x, ast.BinOp) and isinstance(x.op, (ast.Sub, ast.BitAnd)) and mentions(x.left):
+                return True
+        return False
+
+    # element-wise forwarding `for d in deps: if <selecting test on d>: acc.append(d)` is the same selection
+    def guarded_selection(stmt_or_call: ast.AST) -> bool:
+        for lp in [n for n in walk_local(cf.node) if isinstance(n, ast.For) and mentions(n.iter)]:
+            tv = {y.id for y in ast.walk(lp.target) if isinstance(y, ast.Name)}
+            stack = [(b, False) for b in lp.body]
+            while stack:
+                node, sel = stack.pop()
+                if node is stmt_or_call or any(y is stmt_or_call for y in ast.walk(node)) and not isinstance(node, (ast.If, ast.For, ast.While, ast.With, ast.Try)):
+                    if sel:
+                        return True
+                    continue
+                if isinstance(node, ast.If):
+                    s = selects(node.test, tv)
+                    stack += [(b, sel or s) for b in node.body] + [(b, sel or s) for b in node.orelse]
+                elif isinstance(node, (ast.For, ast.While, ast.With, ast.Try)):
+                    for fld in ('body', 'orelse', 'finalbody'):
+                        stack += [(b, sel) for b in getattr(node, fld, [])]
+                    for h in getattr(node, 'handlers', []):
+                        stack += [(b, sel) for b in h.body]
+            # `if <selecting test>: continue` before the forwarding statement
+            for b in lp.body:
+                if any(y is stmt_or_call for y in ast.walk(b)):
+                    break
+                if isinstance(b, ast.If) and selects(b.test, tv) and any(isinstance(y, ast.Continue) for z in b.body for y in ast.walk(z)):
+                    return True
+        return False
+
+    for n in walk_local(cf.node):
+        v = None
+        if isinstance(n, ast.AugAssign) and isinstance(n.target, ast.Name):
+            v = n.value
+        elif isinstance(n, ast.Call) and isinstance(n.func, ast.Attribute) and n.func.attr in ('extend', 'update', 'append', 'add') \
+                and isinstance(n.func.value, ast.Name) and n.args:
+            v = n.args[0]
+        elif isinstance(n, (ast.Assign, ast.AnnAssign)) and getattr(n, 'value', None) is not None:
+            v = n.value
+        if v is not None and mentions(v) and (lossy(v) or guarded_selection(n)):
+            return f'`{src(n)}` forwards only a selection of the discovered dependencies: an instance equal to a known task is never inserted (nor marked with the outcome)'
+
+    return None
+
+
 def _deps_reprocessed(ctx: Ctx, cf: FuncInfo, deps_arg) -> bool:
     """deps flow (via += / extend / append) into a collection passed to a recursive call of cf, or
     iterated by cf's own loop (worklist)."""
@@ -662,6 +758,11 @@ def instances(ctx: Ctx):
     exits = early_exits(lp, allow_raise=True, allow_continue=True)
     yield ctx.ob('C03.INSTANCES', not exits, cf, exits[0] if exits else lp, 'processing loop visits every task',
                  '' if not exits else f'`{src(exits[0])}` ends the processing loop early')
+    if isinstance(ins, ast.Call) and cf.qualname != sf.insert_fn.qualname:
+        da = ins.args[1] if len(ins.args) > 1 else (ins.keywords[0].value if ins.keywords else None)
+        why = _deps_selection(ctx, cf, da)
+        yield ctx.ob('C03.INSTANCES', why is None, cf, ins, 'every discovered dependency instance is forwarded to insertion',
+                     why or '', construct='deps-forwarded-whole')
     if sf.instances is None:
         yield ctx.ob('C03.INSTANCES', False, sf.insert_fn, sf.insert_fn.node, 'instance list',
                      'inserted instances are not recorded per task', construct='no-instances')
